@@ -39,6 +39,29 @@ class ClassInfo:
         return '<class %s.%s>' % (self.module, self.qual)
 
 
+def _method_aliases(tree):
+    """``class C: m = f`` with f a plain function of the module is ``class C: def m(...): <body of f>``
+    (a function stored in a class is a method): the class gets its own copy under that name"""
+    import copy
+    funcs = {}
+    for n in tree.body:
+        if isinstance(n, ast.FunctionDef) and not n.decorator_list:
+            funcs.setdefault(n.name, []).append(n)
+    rebound = {x.id for x in ast.walk(tree) if isinstance(x, ast.Name) and isinstance(x.ctx, (ast.Store, ast.Del))}
+    for c in tree.body:
+        if not isinstance(c, ast.ClassDef):
+            continue
+        defined = {m.name for m in c.body if isinstance(m, (ast.FunctionDef, ast.ClassDef))}
+        for i, st in enumerate(c.body):
+            if isinstance(st, ast.Assign) and len(st.targets) == 1 and isinstance(st.targets[0], ast.Name) and isinstance(st.value, ast.Name):
+                f = funcs.get(st.value.id)
+                if f and len(f) == 1 and st.value.id not in rebound and st.targets[0].id not in defined and f[0].lineno < c.lineno:
+                    m = copy.deepcopy(f[0])
+                    m.name = st.targets[0].id
+                    m._alias_of = st.value.id
+                    c.body[i] = m
+
+
 class Repo:
     def __init__(self, root=None, normalise=True):
         self.root = root or REPO
@@ -69,6 +92,8 @@ class Repo:
         except SyntaxError as e:
             raise Undecided('cannot parse %s: %s' % (path, e))
         name = fn[:-3]
+        if not os.environ.get('BISTAT_NO_INLINE'):
+            _method_aliases(tree)
         self.modules[name] = {'path': path, 'src': src, 'tree': tree, 'lines': src.splitlines()}
         self._collect(name, tree.body, '', None)
 
